@@ -334,7 +334,14 @@ func histTags(ops []int, isUnify []bool, out string) (bool, []string) {
 		}
 		return ""
 	}
-	type rng struct{ ls, le int }
+	type ed struct {
+		op   string
+		xlen int
+	}
+	type rng struct {
+		ls, le int
+		es     []ed
+	}
 	parse := func(s string) []rng {
 		if s == "." || s == "" || s == "-" || strings.HasPrefix(s, "panic:") {
 			return nil
@@ -347,9 +354,38 @@ func histTags(ops []int, isUnify []bool, out string) (bool, []string) {
 			}
 			a, _ := strconv.Atoi(p[0])
 			b, _ := strconv.Atoi(p[1])
-			out = append(out, rng{a, b})
+			var es []ed
+			if p[4] != "." {
+				for _, e := range strings.Split(p[4], "/") {
+					q := strings.Split(e, ":")
+					if len(q) != 3 {
+						continue
+					}
+					n := 0
+					if q[1] != "." {
+						n = strings.Count(q[1], ",") + 1
+					}
+					es = append(es, ed{q[0], n})
+				}
+			}
+			out = append(out, rng{a, b, es})
 		}
 		return out
+	}
+	// number of leading / trailing Emit edits of a chunk
+	lead := func(c rng) int {
+		k := 0
+		for k < len(c.es) && c.es[k].op == "E" {
+			k++
+		}
+		return k
+	}
+	trail := func(c rng) int {
+		k := 0
+		for k < len(c.es) && c.es[len(c.es)-1-k].op == "E" {
+			k++
+		}
+		return k
 	}
 	meets := func(cs []rng) (overlap, adjacent bool) {
 		for i := 0; i+1 < len(cs); i++ {
@@ -396,6 +432,39 @@ func histTags(ops []int, isUnify []bool, out string) (bool, []string) {
 			if ov && effAdds >= 2 {
 				add("hist-unify-overlap-after-several-adds")
 			}
+			for j := 0; j+1 < len(prev); j++ {
+				a, b := prev[j], prev[j+1]
+				lap := a.le - b.ls
+				if lap < 0 || len(a.es) == 0 {
+					continue
+				}
+				last := a.es[len(a.es)-1]
+				if trail(a) >= 2 && lead(b) >= 2 {
+					add("hist-unify-several-layers")
+					switch {
+					case lap == 0:
+						add("hist-unify-layers-meet")
+					case last.op == "E" && lap == last.xlen:
+						add("hist-unify-latest-layer-removed-fuse-earlier")
+					case last.op == "E" && lap < last.xlen:
+						add("hist-unify-latest-layer-trimmed")
+					}
+				}
+				if trail(a) == 1 && last.op == "E" && lap == last.xlen && lap > 0 {
+					add("hist-unify-only-layer-removed")
+				}
+			}
+			for _, c := range cur {
+				inner := 0
+				for k := lead(c); k < len(c.es)-trail(c); k++ {
+					if c.es[k].op == "E" {
+						inner++
+					}
+				}
+				if inner > 0 && (lead(c) > 0 || trail(c) > 0) {
+					add("hist-merged-chunk-with-outer-context")
+				}
+			}
 			if adj {
 				add("hist-unify-adjacent")
 			}
@@ -436,6 +505,33 @@ func histTags(ops []int, isUnify []bool, out string) (bool, []string) {
 		prev, prevS = cur, stages[i]
 	}
 	return nN >= 1 && len(ops) >= 2, tags
+}
+
+// structured pair: changed lines separated by common runs of chosen lengths (the gaps the
+// context layers of successive AddContext calls eat into), with common lines before and after
+func structured(r *tr.Rand, alpha []string) (lhs, rhs []string) {
+	common := func(n int) {
+		for i := 0; i < n; i++ {
+			x := tr.Pick(r, alpha)
+			lhs, rhs = append(lhs, x), append(rhs, x)
+		}
+	}
+	common(r.Intn(5))
+	for k := 2 + r.Intn(3); k > 0; k-- {
+		switch r.Intn(3) {
+		case 0:
+			lhs = append(lhs, "OLD")
+		case 1:
+			rhs = append(rhs, "NEW")
+		default:
+			lhs, rhs = append(lhs, "OLD"), append(rhs, "NEW")
+		}
+		if k > 1 {
+			common(1 + r.Intn(8))
+		}
+	}
+	common(r.Intn(5))
+	return
 }
 
 func randLines(r *tr.Rand, alpha []string, n int) []string {
@@ -480,7 +576,7 @@ func mutate(r *tr.Rand, alpha []string, lhs []string) []string {
 	return out
 }
 
-const rule = "C13: New(lhs, rhs).AddContext(n).Unify() on every pair of line sequences of length <= 5 over 2 symbols for every n in 0..3 (15876 cases, every run); every pair of length <= 3 (quick) / 4 (thorough) over 3 symbols, n in 0..3; random repetitive texts (a short block repeated with disturbances), random texts, and texts derived from one another by a few local edits (long common runs), lengths up to 40, alphabets of 2-4 lines including the empty line, n from {0,1,2,3,5,8,100} (n larger than every gap). The edit script slice.EditScript returned is recorded with the input (oracle) and compared with d.Edits; every fourth case carries no oracle and is predicted by the composed model (model of slice.EditScript + chunk model). n also from {-1, MaxInt64, MinInt64}. HISTORIES (H/HC lines): after New, any sequence of AddContext(n_i) and Unify calls: 23 fixed sequences (Unify alone, Unify twice, AddContext twice with equal/growing/shrinking n, AddContext after Unify, Unify-AddContext-Unify, negative/zero/MaxInt64/MinInt64 n in between) on every pair of sequences of length <= 4 (quick) / 5 (thorough) over 2 symbols, and a random sequence of 2-7 calls (n from {1,2,3,4,6,0,-1,100,MaxInt64,MinInt64}) on every second random pair; d.Chunks recorded after every call. A case is non-trivial when there is at least one chunk and n > 0 (pipeline) or at least two calls (history); counters say how many cases had several chunks, overlapping or adjacent chunks after AddContext, chunks merged by Unify, chunks kept apart by Unify."
+const rule = "C13: New(lhs, rhs).AddContext(n).Unify() on every pair of line sequences of length <= 5 over 2 symbols for every n in 0..3 (15876 cases, every run); every pair of length <= 3 (quick) / 4 (thorough) over 3 symbols, n in 0..3; random repetitive texts (a short block repeated with disturbances), random texts, and texts derived from one another by a few local edits (long common runs), lengths up to 40, alphabets of 2-4 lines including the empty line, n from {0,1,2,3,5,8,100} (n larger than every gap). The edit script slice.EditScript returned is recorded with the input (oracle) and compared with d.Edits; every fourth case carries no oracle and is predicted by the composed model (model of slice.EditScript + chunk model). n also from {-1, MaxInt64, MinInt64}. HISTORIES (H/HC lines): after New, any sequence of AddContext(n_i) and Unify calls: 23 fixed sequences (Unify alone, Unify twice, AddContext twice with equal/growing/shrinking n, AddContext after Unify, Unify-AddContext-Unify, negative/zero/MaxInt64/MinInt64 n in between) on every pair of sequences of length <= 4 (quick) / 5 (thorough) over 2 symbols, and a random sequence of 2-7 calls (n from {1,2,3,4,6,0,-1,100,MaxInt64,MinInt64}) on every second random pair and on structured pairs (2-4 changed lines separated by common runs of 1-8 lines, so that several calls stack several layers of context in one gap); d.Chunks recorded after every call. A case is non-trivial when there is at least one chunk and n > 0 (pipeline) or at least two calls (history); counters say how many cases had several chunks, overlapping or adjacent chunks after AddContext, chunks merged by Unify, chunks kept apart by Unify."
 
 func gen(g *tr.G) {
 	k := 0
@@ -584,14 +680,22 @@ func gen(g *tr.G) {
 			lhs, rhs, tag = randLines(g.R, alpha, ll), randLines(g.R, alpha, g.R.Intn(30)), "random"
 		}
 		emit(n, lhs, rhs, tag)
+		if i%3 == 0 {
+			lhs, rhs = structured(g.R, alpha)
+			tag = "structured"
+			emit(n, lhs, rhs, tag)
+		}
 		// the same pair under a random history of calls
-		if i%2 == 0 {
+		if i%2 == 0 || tag == "structured" {
 			nops := 2 + g.R.Intn(6)
 			ops, un := make([]int, nops), make([]bool, nops)
 			for j := range ops {
-				if g.R.Chance(1, 3) {
+				switch {
+				case g.R.Chance(1, 3):
 					un[j] = true
-				} else {
+				case tag == "structured" && g.R.Chance(2, 3):
+					ops[j] = 1 + g.R.Intn(3) // small steps: several layers fit into one gap
+				default:
 					ops[j] = tr.Pick(g.R, hns)
 				}
 			}
